@@ -117,6 +117,9 @@ def gen_consts(ctx, exe):
     L.append("/-- `sizeof` of what the emission allocates from the script's arena -/")
     for k in ("szStateScript", "szCatchBlock", "szEntry", "szPtr", "szSourcePos"):
         L.append("def %s : Nat := %s" % (k, f[k]))
+    L.append("/-- `std::numeric_limits<op_parmNum_t>::max()`, `…<op_arrayParmNum_t>::max()`: what `CheckOperandCount` compares with -/")
+    for k in ("parmNumMax", "arrayParmNumMax"):
+        L.append("def %s : Nat := %s" % (k, f[k]))
     L.append("def opPrevious : Nat := %s" % f["opPrevious"])
     L.append("def opMax : Nat := %s" % f["opMax"])
     L.append("/-- `OpcodeInfo[].opcodelength` -/")
@@ -213,6 +216,7 @@ class Runner:
         self.distinct = set()
         self.max_ms = 0
         self.cert_fail = 0
+        self.plain = 0
         self.wf_fail = 0
         self.skipped = 0
 
@@ -293,6 +297,8 @@ class Runner:
                 return
             if m.get("cert") != "1":
                 self.cert_fail += 1
+            if m.get("plain") == "1":
+                self.plain += 1
             unstable = "(case 4 " in c.line
             for k in FIELDS:
                 if k not in m and k not in f:
@@ -404,6 +410,13 @@ def family_cases(thorough):
             for order in ("bc", "cb", "mix"):
                 for nest in ((0, 2) if thorough else (0, 1)):
                     add("break-continue", g.fam_break_continue(nb, nc, loop, order, nest))
+    # CheckOperandCount: lists around the width of the count operand
+    for kind in ("cmd", "cmdx", "mcmd", "mcmdx", "thread"):
+        for n in ((6, 254, 255, 256, 257, 300, 1000) if thorough else (254, 255, 256, 257)):
+            add("param-limit", g.fam_param_limit(kind, n))
+    for kind in ("carr", "marr"):
+        for n in ((2, 255, 256, 65534, 65535, 65536, 65537) if thorough else (2, 255, 256, 1000)):
+            add("param-limit", g.fam_param_limit(kind, n))
     for i, src in enumerate(g.fam_lexical()):
         add("lexical", src)
     ns = [1, 2, 50, 99, 100, 101] if thorough else [2, 99, 100, 101]
@@ -519,7 +532,7 @@ def check(ctx):
                runner.cert_fail == 0, "%d trees fail" % runner.cert_fail)
     ctx.samples = [c.src.decode("latin1")[:300] for c in random_cases(ctx.rng("sample"), 4, False)]
     cov = {
-        "evaluations": runner.cases, "distinct_nontrivial": len(runner.distinct), "modelled_trees": runner.modelled,
+        "evaluations": runner.cases, "distinct_nontrivial": len(runner.distinct), "modelled_trees": runner.modelled, "trees_in_class_plain_of_C01_code_fits_partial2": runner.plain,
         "rule": "inputs: replayed corpus, deterministic stress families (break-before-continue / continue-before-break / interleaved in every loop kind with nesting, fix-up table bounds 99/100/101 per loop kind and wrapper, lexical edge cases: tokens around flex's 8/16 KB buffers, NUL bytes, unterminated strings / comments, trailing backslashes; label-set sizes up to 300 with nesting, try-in-catch / switch-in-switch / try-in-try nesting up to 40, peephole chains) and random programs / token mutations / byte noise; non-trivial = passes the parser; distinct by SHA-1 of the source",
         "outcome_histogram": dict(runner.out_hist), "generator_histogram": dict(runner.gen_hist),
         "node_kind_histogram": dict(runner.node_hist), "max_compile_ms": runner.max_ms, "exhaustive": False,
